@@ -467,7 +467,7 @@ FAMILIES = [
     Family('matrix_rule', gen_matrix, impl_matrix, coq_matrix, PREAMBLE, compare_matrix, None, descr=descr_matrix, shard=100,
            theorem='C19_vertical_rule_is_sum, C19_matrix_bound_refuted (the rule the code implements)'),
     Family('matrix_norm', gen_matrix, impl_matrix, None, '', None, oracle_matrix, descr=descr_matrix,
-           theorem='C19_matrix_bound_refuted, C19_vertical_bound, C19_sum_of_squares_bound_partial'),
+           theorem='C19_matrix_bound_refuted, C19_vertical_bound, C19_sum_of_squares_bound'),
     Family('float64_input', gen_f64, impl_f64, None, '', None, oracle_f64, descr=lambda c: {'dtype': c['dtype'], 'positive_tolerance': c['tols'][0] > 0},
            theorem='(implementation-level)'),
 ]
